@@ -3,6 +3,7 @@ from __future__ import annotations
 
 import torch
 
+from autojac_common import as_count
 from common import Ctx, classify_exc, field, sx
 from progs import differentiable_nonleaves, numel, random_mtl, random_program
 from prop_C01 import TRUSTED
@@ -130,7 +131,7 @@ def run(ctx: Ctx, P, M):
         if op[0] == "backward":
             _, tensors, ins, retain, chunk = op
             ra = attempt(lambda: backward([A[t] for t in tensors], Sum(), inputs=[A[i] for i in ins],
-                                          retain_graph=retain, parallel_chunk_size=chunk))
+                                          retain_graph=retain, parallel_chunk_size=as_count(chunk)))
             rb = attempt(lambda: torch.autograd.backward([B[t] for t in tensors],
                                                          grad_tensors=[torch.ones_like(B[t]) for t in tensors],
                                                          inputs=[B[i] for i in ins], retain_graph=retain))
@@ -139,7 +140,7 @@ def run(ctx: Ctx, P, M):
             ra = attempt(lambda: mtl_backward([A[l] for l in M.losses], [A[f] for f in M.features], Sum(),
                                               tasks_params=[[A[p] for p in tp] for tp in tasks],
                                               shared_params=[A[s] for s in shared], retain_graph=retain,
-                                              parallel_chunk_size=chunk))
+                                              parallel_chunk_size=as_count(chunk)))
             allp = list(dict.fromkeys(shared + [p for tp in tasks for p in tp]))
             rb = attempt(lambda: torch.autograd.backward([B[l] for l in M.losses], inputs=[B[p] for p in allp],
                                                          retain_graph=retain)) if allp else "ok"
@@ -190,13 +191,13 @@ def many_rows(ctx: Ctx):
     xa, fa, ya, la = build()
     xb, fb, yb, lb = build()
     if api == "backward":
-        ra = attempt(lambda: backward([ya], Sum(), inputs=[xa], retain_graph=retain, parallel_chunk_size=chunk))
+        ra = attempt(lambda: backward([ya], Sum(), inputs=[xa], retain_graph=retain, parallel_chunk_size=as_count(chunk)))
         rb = attempt(lambda: torch.autograd.backward([yb], grad_tensors=[torch.ones_like(yb)], inputs=[xb], retain_graph=retain))
         pa = attempt(lambda: torch.autograd.grad(ya.sum(), xa, retain_graph=True))
         pb = attempt(lambda: torch.autograd.grad(yb.sum(), xb, retain_graph=True))
     else:
         ra = attempt(lambda: mtl_backward(la, [fa], Sum(), tasks_params=[[] for _ in la], shared_params=[xa],
-                                          retain_graph=retain, parallel_chunk_size=chunk))
+                                          retain_graph=retain, parallel_chunk_size=as_count(chunk)))
         rb = attempt(lambda: torch.autograd.backward(lb, inputs=[xb], retain_graph=retain))
         pa = attempt(lambda: torch.autograd.grad(la[0], xa, retain_graph=True))
         pb = attempt(lambda: torch.autograd.grad(lb[0], xb, retain_graph=True))
@@ -234,7 +235,7 @@ def head_local(ctx: Ctx):
     A = build()
     B = build()
     ra = attempt(lambda: mtl_backward(A[6], [A[1]], Sum(), tasks_params=[[s, w] for s, w in zip(A[2], A[3])],
-                                      shared_params=[A[0]], retain_graph=retain, parallel_chunk_size=chunk))
+                                      shared_params=[A[0]], retain_graph=retain, parallel_chunk_size=as_count(chunk)))
     rb = attempt(lambda: torch.autograd.backward(B[6], inputs=[B[0]] + B[2] + B[3], retain_graph=retain))
     t = rng.randrange(T)
     probes = {
@@ -278,11 +279,11 @@ def empty_parameter(ctx: Ctx, api, retain, name):
     A = build()
     B = build()
     if api == "backward":
-        ra = attempt(lambda: backward([A[4]], Sum(), inputs=[A[0], A[1]], retain_graph=retain, parallel_chunk_size=chunk))
+        ra = attempt(lambda: backward([A[4]], Sum(), inputs=[A[0], A[1]], retain_graph=retain, parallel_chunk_size=as_count(chunk)))
         rb = attempt(lambda: torch.autograd.backward([B[4]], grad_tensors=[torch.ones_like(B[4])], inputs=[B[0], B[1]], retain_graph=retain))
     else:
         ra = attempt(lambda: mtl_backward(A[5], [A[3]], Sum(), tasks_params=[[], []], shared_params=[A[0], A[1]],
-                                          retain_graph=retain, parallel_chunk_size=chunk))
+                                          retain_graph=retain, parallel_chunk_size=as_count(chunk)))
         rb = attempt(lambda: torch.autograd.backward(B[5], inputs=[B[0], B[1]], retain_graph=retain))
     probe = (lambda G: torch.autograd.grad(G[2].sum(), G[1], retain_graph=True)) if name == "grad(u, E)" else \
             (lambda G: torch.autograd.grad(G[3].sum(), G[0], retain_graph=True))
